@@ -5,6 +5,7 @@ package main
 import (
 	"context"
 	"fmt"
+	"net"
 	"time"
 
 	"tunnox-core/internal/core/idgen"
@@ -14,7 +15,7 @@ import (
 
 // ============================================================================
 // mgr: components whose shutdown is the dispose latch plus background goroutines
-//   mgr kind <st|sm> n <N> rep <K> ms <seed>
+//   mgr kind <st|sm|mh> n <N> rep <K> ms <seed>
 //     st = in-memory storage with its cleanup goroutine running
 //     sm = SessionManager (connection-cleanup goroutine, stream manager, registries)
 //   obs: closed <0|1> after <ok|panic…> leak <g>
@@ -58,6 +59,14 @@ func mgrOnce(kind string, n int) string {
 	case "sm":
 		st := memory.New(ctx)
 		sm := session.NewSessionManager(idgen.NewIDManager(st, ctx), ctx)
+		// live connections: onClose has streams to close
+		for i := 0; i < 3; i++ {
+			a, b := net.Pipe()
+			defer b.Close()
+			if _, err := sm.CreateConnection(a, a); err != nil {
+				return "bad create"
+			}
+		}
 		closeFn = func() { sm.Close() }
 		isClosed = sm.IsClosed
 		after = func() {
@@ -65,6 +74,19 @@ func mgrOnce(kind string, n int) string {
 			sm.Close()
 			st.Close()
 		}
+	case "mh":
+		// client mapping handler with its accept loop and stats loop running
+		cl, p := mappingHandlerOnce(n)
+		if len(p) > 0 {
+			return "panic " + p[0]
+		}
+		cancel()
+		g, _ := leaked(base, leakWait())
+		c := 0
+		if cl {
+			c = 1
+		}
+		return fmt.Sprintf("closed %d after ok leak %d", c, g)
 	default:
 		return "bad case"
 	}
